@@ -238,6 +238,10 @@ def run_case(case):
         COL.ok("C03.reject", sig)
         return True
 
+    def wcopy(c):
+        # what is handed to the writer: a private copy, sometimes as a non-contiguous view of a larger buffer
+        return gen.maybe_view(rng, c.copy(), p=0.25)
+
     for step, op in enumerate(ops):
         if failed[0]:
             break
@@ -248,7 +252,7 @@ def run_case(case):
             kw = dict(header=hdr, delim=delim)
             if op == "append-missing":
                 kw["append"] = True
-            res, e, b, a = do(op, lambda: sfile.write(path, c.copy(), **kw))
+            res, e, b, a = do(op, lambda: sfile.write(path, wcopy(c), **kw))
             if e is not None:
                 viol("C03.history", "%s raised %s: %s" % (op, type(e).__name__, str(e)[:160]), step=step,
                      key="append/missing-file-not-created" if op == "append-missing" and isinstance(e, (FileNotFoundError, OSError, RuntimeError)) else None)
@@ -260,7 +264,7 @@ def run_case(case):
 
             def f():
                 handle[0] = sfile.SFile(path, mode, delim=delim)
-                handle[0].write(c.copy(), header=hdr)
+                handle[0].write(wcopy(c), header=hdr)
             res, e, b, a = do(op, f)
             if e is not None:
                 viol("C03.history", "%s raised %s: %s" % (op, type(e).__name__, str(e)[:160]), step=step)
@@ -268,7 +272,7 @@ def run_case(case):
             model.create(c, hdr, delim)
         elif op == "write-again":
             c = chunk()
-            res, e, b, a = do(op, lambda: handle[0].write(c.copy(), header=(rs.rand_header(rng) if rng.random() < .3 else None)))
+            res, e, b, a = do(op, lambda: handle[0].write(wcopy(c), header=(rs.rand_header(rng) if rng.random() < .3 else None)))
             if e is not None:
                 viol("C03.history", "write-again on the open handle raised %s: %s" % (type(e).__name__, str(e)[:160]), step=step)
                 break
@@ -283,7 +287,7 @@ def run_case(case):
                 kw["header"] = {"other": "header", "a": 99}
             if rng.random() < .5:
                 kw["delim"] = delim          # delim= is documented as ignored when the file exists
-            res, e, b, a = do(op, lambda: sfile.write(path, c.copy(), **kw))
+            res, e, b, a = do(op, lambda: sfile.write(path, wcopy(c), **kw))
             if e is not None:
                 viol("C03.history", "%s raised %s: %s" % (op, type(e).__name__, str(e)[:160]), step=step)
                 break
@@ -295,7 +299,7 @@ def run_case(case):
             def f():
                 handle[0] = sfile.SFile(path, "r+")
                 for c in cs:
-                    handle[0].write(c.copy())
+                    handle[0].write(wcopy(c))
                 if op == "reopen-write":
                     handle[0].close()
                     handle[0] = None
